@@ -73,6 +73,8 @@ func genC14ExitRace(seed uint64, r *rng) *Scenario {
 
 // genC14 builds a history of timed/untimed matches, idle gaps and StopTimeoutClock calls
 // for 1-3 clients (DESIGN §3 C14).  tier scales nothing here: runs are short by design.
+var c14Thorough bool
+
 func genC14(seed uint64) *Scenario {
 	r := newRng(seed)
 	if r.chance(1, 7) {
@@ -83,6 +85,9 @@ func genC14(seed uint64) *Scenario {
 	p := periods[r.n(len(periods))]
 	sc.PeriodNs = p
 	ncl := 1 + r.n(3)
+	if c14Thorough && r.chance(1, 4) {
+		ncl = 2 + r.n(4) // up to 5 concurrent deadlines
+	}
 	mode := r.n(10)
 	cfg := vsim.Config{Policy: vsim.Fair, Quantum: 50 + r.i64(200), MaxSteps: 60_000_000, PoolMode: vsim.PoolRandom, MissProb: 200, DropProb: 100}
 	switch {
@@ -149,6 +154,9 @@ func genC14(seed uint64) *Scenario {
 			n := 1 + r.n(4)
 			if nphases == 1 {
 				n = 2 + r.n(5)
+				if c14Thorough && r.chance(1, 4) {
+					n += r.n(10) // longer histories
+				}
 			}
 			for k := 0; k < n; k++ {
 				x := r.n(10)
